@@ -52,11 +52,19 @@ struct Outcome {
 template <typename Dst, typename... In>
 static DeserializationError call(bool msgpack, Dst& dst, int limit, JsonDocument* filter, In&&... in) {
   auto nl = DeserializationOption::NestingLimit((uint8_t)limit);
+  // every documented way of passing the options: none (the default limit), the limit alone, the
+  // filter alone, and both in either order
+  const bool dflt = limit == ARDUINOJSON_DEFAULT_NESTING_LIMIT;
   if (filter) {
     JsonVariantConst fv = filter->as<JsonVariantConst>();
-    return msgpack ? deserializeMsgPack(dst, in..., nl, DeserializationOption::Filter(fv))
+    if (dflt) return msgpack ? deserializeMsgPack(dst, in..., DeserializationOption::Filter(fv)) : deserializeJson(dst, in..., DeserializationOption::Filter(fv));
+    if (limit & 1)
+      return msgpack ? deserializeMsgPack(dst, in..., nl, DeserializationOption::Filter(fv))
+                     : deserializeJson(dst, in..., nl, DeserializationOption::Filter(fv));
+    return msgpack ? deserializeMsgPack(dst, in..., DeserializationOption::Filter(fv), nl)
                    : deserializeJson(dst, in..., DeserializationOption::Filter(fv), nl);
   }
+  if (dflt) return msgpack ? deserializeMsgPack(dst, in...) : deserializeJson(dst, in...);
   return msgpack ? deserializeMsgPack(dst, in..., nl) : deserializeJson(dst, in..., nl);
 }
 
